@@ -18,6 +18,8 @@ Obligations (functions walked; everything on the right is computed from the entr
   store_aggregate()               slot capacity()-1 receives  E == sum_{i<size} alpha_i E(i),  S == sum_{i<size} alpha_i S(i)  (the alpha-convex combination), nothing else
                                   changes; with sum alpha_i == 1 the stored plane is the alpha-combination of the planes at EVERY point z (lemma `aggregate-plane`)
   append_aggregate()              entry size() becomes a copy of slot capacity()-1, size' == size + 1, nothing else changes
+  solve(miu, logger)              1 and 2 entries (the analytic branches): sum alpha_i == 1, alpha_i >= 0, nothing else changes; 2 entries, S(0) != S(1): the multipliers
+                                  minimise  1/2 |sum alpha_i S(i)|^2 + miu sum alpha_i E(i)  over the simplex (see solve_vcs)
   econverged(eps) / sconverged(eps)   ret == (sum_{i<size} alpha_i E(i) <= eps sqrt(n)),  ret == (|sum_{i<size} alpha_i S(i)|_2 <= eps sqrt(n)):
                                   the smeared quantities are taken over exactly the entries [0, size()) of the CURRENT buffers
 Contracts used for the callees:
@@ -486,4 +488,49 @@ def converged_vcs(n, m, cap, info):
             claim = f'(= {wp.conv(rets[0][1], "Bool", "bool").t} (<= {q} {tol}))'
         out.append(g.vc(f'smeared: {what}: the alpha-weighted combination over exactly the entries [0, size()) of the current buffers', [], claim, line=line))
         out.append(g.canary())
+    return out
+
+
+def solve_vcs(n, m, cap, info):
+    """bundle_t::solve(miu, logger) for m = 1, 2 entries (the branches that do not call the QP solver): the multipliers lie on the simplex and, for m == 2,
+    minimise the dual of the proximal bundle problem  phi(alpha) = 1/2 |sum alpha_i S(i)|^2 + miu sum alpha_i E(i)  over the simplex
+    [Bonnans, Gilbert, Lemarechal, Sagastizabal, "Numerical optimization", 2nd ed., (10.14)].  Hypothesis for m == 2: S(0) != S(1) (q = |S(0) - S(1)|^2 != 0; for
+    q == 0 the code relies on IEEE inf / NaN and std::isfinite, which the real model cannot express)."""
+    path = astload.REPO + '/' + TU
+    fn = definition('solve', 2)
+    name = f'bundle_solve[n={n},m={m}]'
+    wp = BundleWP(name, n, m, cap)
+    keys = [k for k, p in wp.bind_params(fn)]
+    wp.env[keys[0]] = wp.const('|miu|', 'Real', 'double')
+    wp.env[keys[1]] = V('0', 'Int', 'int')                    # the logger is not used by the analytic branches
+    wp.fresh_bundle()
+    st = wp.snapshot()
+    # std::isfinite(b) of a quotient whose divisor is non-zero (obliged): true over the reals
+    wp.calls = [(r'^isfinite\|', lambda w, node, args, callee: (w.ev(args[0]), V('true', 'Bool', 'bool'))[1])] + list(wp.calls)
+    run(wp, fn)
+    if n == 2 and m == 2:
+        info.append(fninfo('bundle_solve_num', 'bundle_t::solve (the analytic branches for 1 and 2 entries)', path, fn))
+    line = fn.get('loc', {}).get('line') or fn.get('_line')
+    p = wp.snapshot()
+    hyps = []
+    if m == 2:
+        d = sub(st['S'][0], st['S'][1])
+        hyps = [f'(not (= {t_dot(d, d)} 0.0))']
+    g = Vcg(wp, name, hyps=hyps, bound=f'dimension n = {n}, {m} bundle entries, capacity {cap}', path=path)
+    out = g.from_wp()
+    A = p['A']
+    out.append(g.vc('simplex: the multipliers of the entries sum to 1 and are non-negative', [],
+                    conj([f'(= {rsum(A[:m])} 1.0)'] + [f'(>= {a} 0.0)' for a in A[:m]]), line=line))
+    out.append(g.vc('frame: solve changes nothing but the multipliers of the entries', [],
+                    conj([eqs(p['E'], st['E']), eqs(p['A'][m:], st['A'][m:]), f'(= {p["size"]} {m})', eqs(p['x'], st['x']), f'(= {p["fx"]} {st["fx"]})'] +
+                         [eqs(p['S'][i], st['S'][i]) for i in range(cap)]), line=line))
+    if m == 2:
+        t = wp.const('|t|', 'Real', 'double').t
+
+        def phi(a0, a1):
+            s = [f'(+ (* {a0} {st["S"][0][k]}) (* {a1} {st["S"][1][k]}))' for k in range(n)]
+            return f'(+ (* 0.5 {t_dot(s, s)}) (* |miu| (+ (* {a0} {st["E"][0]}) (* {a1} {st["E"][1]}))))'
+        out.append(g.vc('minimiser: phi(alpha) <= phi(t, 1 - t) for every t in [0, 1], phi(alpha) = 1/2 |sum alpha_i S(i)|^2 + miu sum alpha_i E(i)',
+                        [f'(<= 0.0 {t})', f'(<= {t} 1.0)'], f'(<= {phi(A[0], A[1])} {phi(t, f"(- 1.0 {t})")})', line=line, timeout=60))
+    out.append(g.canary())
     return out
